@@ -14,7 +14,7 @@
       rebuild_leaf(...).unwrap() panics (internal pages: Err after the leaf level was already written).
   `C26_partial` is the B-tree correctness theorem for every history outside these two triggers.
 -/
-import Nervus.Proofs.BTreeRun
+import Nervus.Proofs.BTreeFit
 import Nervus.Model.BTreeReal
 namespace Nervus.Props.C26
 open Nervus Nervus.BTree Nervus.Multimap
@@ -74,6 +74,27 @@ theorem C26_partial {κ : Type} [KeyOrd κ] [LawfulKeyOrd κ] (c : Cfg) (hc : c.
   · intro k; rw [scanFrom_spec c hc _ g wf k, hcont]; rfl
   · intro k; rw [lookup_spec c hc _ g wf k, hcont]; rfl
 
+/-- **C26 (keys fit ⇒ no overflow)**: a purely syntactic condition on the keys of the history.  If every
+    inserted key's cell lengths lie in the bounds `B` and the bounds satisfy the fit condition `FitCfg`
+    (for each page kind: ((H / (m + slot)) + 2) / 2 · (M + slot) ≤ H — with keys of one size simply
+    "one cell fits a page", `fitCfg_uniform`), then on pairwise distinct keys no insert panics or errs
+    unless the page ids are exhausted: the second trigger cannot fire -/
+theorem C26_fit {κ : Type} [KeyOrd κ] [LawfulKeyOrd κ] (c : Cfg) (hc : c.Std) (hfp : 0 < c.firstPage)
+    (B : Bounds) (fc : FitCfg c B) (ops : List (Op κ)) (hgood : goodOps c B ops)
+    (hdist : distinctKeys [] ops = true) (hroom : (run c ops).1.next < c.maxPages) :
+    NoTrigger c ops = true := by
+  obtain ⟨g0, wf0, hc0⟩ := create_wf (κ := κ) c hfp
+  have := runFrom_fit c hc B fc ops (create c) g0 wf0 (create_sized c B fc) (by rw [hc0]; exact hdist) hgood hroom
+  simp only [NoTrigger, Bool.and_eq_true]
+  exact ⟨hdist, this⟩
+
+/-- … and therefore the B-tree is a sorted multimap on such histories -/
+theorem C26_partial_fit {κ : Type} [KeyOrd κ] [LawfulKeyOrd κ] (c : Cfg) (hc : c.Std) (hfp : 0 < c.firstPage)
+    (B : Bounds) (fc : FitCfg c B) (ops : List (Op κ)) (hgood : goodOps c B ops)
+    (hdist : distinctKeys [] ops = true) (hroom : (run c ops).1.next < c.maxPages) :
+    (run c ops).2 = specOuts [] ops ∧ Agrees c (run c ops).1 (Multimap.run ops) :=
+  C26_partial c hc hfp ops (C26_fit c hc hfp B fc ops hgood hdist hroom)
+
 /-- the partial theorem for the real layout and byte-string keys (what the `btree` stream runs) -/
 theorem C26_partial_real (ops : List (Op Bytes)) (h : NoTrigger Cfg.real ops = true) :
     (run Cfg.real ops).2 = specOuts [] ops ∧ Agrees Cfg.real (run Cfg.real ops).1 (Multimap.run ops) :=
@@ -116,6 +137,14 @@ example : scan tiny (run tiny exampleOps).1 = .ok (Multimap.run exampleOps) := b
 /-- the hypotheses of the one-step theorems: the empty tree is well formed -/
 example : ∃ g : Ghost Nat, WF (create tiny : Tree Nat).pages.get (create tiny : Tree Nat).root (create tiny : Tree Nat).next g :=
   (create_wf tiny (by decide)).imp fun _ h => h.1
+
+/-- the fit condition holds for the real layout with keys of 16 … 24 bytes (property-store and index
+    keys: leaf cells 25 … 33 bytes, internal cells the same) and for 3 KB keys of one size -/
+example : FitCfg Cfg.real ⟨25, 33, 25, 33⟩ := by constructor <;> decide
+example : FitCfg Cfg.real ⟨3010, 3010, 3010, 3010⟩ :=
+  fitCfg_uniform Cfg.real 3010 3010 (by decide) (by decide) (by decide) (by decide) (by decide) (by decide) (by decide)
+/-- … but NOT for a mix of 1-byte and 3 KB keys (the split-overflow counterexample's sizes) -/
+example : ¬ FitCfg Cfg.real ⟨10, 3011, 10, 3011⟩ := fun h => absurd h.leaf (by decide)
 
 /-! ### counterexamples (closed terms, kernel evaluated; real-size witnesses are replayed on the
     implementation from corpus/btree/) -/
